@@ -144,6 +144,27 @@ def battery(ctx, prop, exh_len, n_prog, n_soup, tower_depth=128, list_len=2000, 
         for _ in range(n_text):
             n = 1 + ctx.rng.below(60)
             texts.append("".join(ctx.rng.choice(words) + " " if ctx.rng.chance(1, 3) else ctx.rng.choice(uni) for _ in range(n)))
+        # declarations and statements carrying LONG literals / comments with multi-byte characters at every byte offset
+        # (anything that slices, truncates or measures a token value in bytes meets a character boundary here),
+        # and files that start with a byte order mark
+        lit = 'ab zé漢🙂ßж②'
+        for _ in range(max(40, n_text // 20)):
+            n = 20 + ctx.rng.below(80)
+            v = "".join(ctx.rng.choice(lit) for _ in range(n))
+            k = ctx.rng.below(6)
+            if k == 0:
+                t = "const cLong = '%s'\n" % v
+            elif k == 1:
+                t = "class aFoo\n\nconst cLong = \"%s\"\nfName : int\n" % v
+            elif k == 2:
+                t = "proc P\n x = '%s' + y\n WriteLn('%s', x)\nendproc\n" % (v, v[: n // 2])
+            elif k == 3:
+                t = "; %s\nconst c = 1 ; %s\nproc %s\nendproc\n" % (v, v, "P")
+            elif k == 4:
+                t = "\ufeffclass aFoo\n\nconst cBom = '%s'\nproc P\n x = 1\nendproc\n" % v[:10]
+            else:
+                t = "\ufeff" + v
+            texts.append(t)
         for l in texts_to_lines(ctx, texts):
             add(l, "text")
     return lines, labels
